@@ -122,11 +122,11 @@ CLAIMED = {
          'function\'s support on equally spaced knots (odd and even degree); np.interp model: node values, constants, bounds. '
          'Correspondence/certificates: coefficients and returned spline captured at PSpline.solve_pspline / PSpline2D.solve for every '
          'penalised-spline method (asls-family, iasls, drpls, aspls extras; mixture_model, irsqr, mpls, brpls at solve level; '
-         'utils.pspline_smooth with unsorted x; 2-D Kronecker form) are checked in exact rational arithmetic against the documented '
+         'utils.pspline_smooth with unsorted x; 2-D Kronecker form incl. the 2-D pspline_iasls extras) are checked in exact rational arithmetic against the documented '
          'system built from the Cox-de Boor definition with the weights in force at that step: backward error <= 1e-11 (measured '
          '~2e-16); returned spline vs exact B c; knots vs equally spaced grid over the x-range; converged pairs.'),
    note=('Trusted: Lean kernel; axioms propext, Classical.choice, Quot.sound; harness. Linear solvers are black boxes certified per '
-         'output by the exact backward error. 2-D pspline_iasls extras are not certified (1-D are).'),
+         'output by the exact backward error.'),
    technique='Lean 4 proof of P-spline band assembly = documented matrix + exact-rational backward-error certificate of every captured solve',
    design='4.C07'),
  'C20': dict(
